@@ -62,6 +62,10 @@ func prots(thorough bool) []*prot {
 		{Name: "basicauth-block-exclude", Kind: "basicauth", Dir: "/secret", Target: "/secret/x.txt", BScope: "/secret",
 			Conf:      fmt.Sprintf("basicauth %s %s {\n\t\t/secret\n\t\texclude /secret/pub\n\t}", user, pass),
 			Protected: func(rel string) bool { return under(rel, "/secret") && !under(rel, "/secret/pub") }},
+		// two rules: what the first one excludes is protected by the second
+		{Name: "basicauth-exclude-then-rule", Kind: "basicauth", Dir: "/secret", Target: "/secret/pub/open.txt", BScope: "/secret",
+			Conf:      fmt.Sprintf("basicauth %s %s {\n\t\t/secret\n\t\texclude /secret/pub\n\t}\n\tbasicauth /secret/pub %s %s", user, pass, user, pass),
+			Protected: func(rel string) bool { return under(rel, "/secret") }},
 		{Name: "basicauth-file", Kind: "basicauth", Dir: "/idx", Target: "/idx/index.html", BScope: "/idx/index.html",
 			Conf:      fmt.Sprintf("basicauth /idx/index.html %s %s", user, pass),
 			Protected: func(rel string) bool { return rel == "/idx/index.html" }},
@@ -766,6 +770,7 @@ func run(c *lib.Ctx) {
 	}
 	wg.Wait()
 	concurrentBattery(c)
+	redeployPhase(c)
 	c.Floor("concurrent_wrong_password_refused", 1000)
 	c.Floor("concurrent_valid_logins_overlapping", 200)
 	c.Floor("concurrent_authenticated_protected_pages", 20)
